@@ -362,6 +362,319 @@ def train_excludes_fold(fn_name, ds):
     return '1'
 
 
+
+# ------------------------------------------------------------------ round 4: state that survives a call
+#
+#   input_writes      number of places in the anchored functions (the two estimators, their helpers in
+#                     rdm/calc.py, `_build_rdms`, `average_dataset_by`, `get_unique_inverse`,
+#                     `Dataset.subset_obs`, `subset_descriptor`, `num_index`, `bool_index`) that can leave
+#                     something behind after the call returns:
+#                       (a) a store into (an alias of) a parameter: augmented assignment, subscript /
+#                           attribute store, `del`, mutating method, `out=`, np.copyto & co, a method or
+#                           function the analysis does not know applied to caller data, any call of a
+#                           helper of the same module that is outside the analysed scope;
+#                       (b) a store into a name that is not local to the function (module-level memo,
+#                           function attribute), `global` / `nonlocal`;
+#                       (c) a decorator on, a mutable default argument of, or a module-level rebinding of
+#                           an anchored function (memoisation wrappers).
+#                     A parameter stops being caller data only by an unconditional top-level rebinding
+#                     to a fresh object (`dataset = deepcopy(dataset)`).  The two stores of `_check_noise`
+#                     that put back what they took out (`noise[k] = _check_noise(noise[k], n)`) are not
+#                     counted; `check_noise_identity` is 1 iff `_check_noise` returns its argument itself.
+#                     The Lean obligation is `inputWrites = 0`.
+#   cross_work_is_copy / poisson_work_is_copy
+#                     1 iff the object that receives `obs_descriptors['cv_desc'] = …` and `.sort_by(…)`
+#                     is an unconditional `deepcopy(dataset)` made before any other use.
+_SCALAR_PARAMS = {'descriptor', 'method', 'cv_descriptor', 'prior_lambda', 'prior_weight', 'remove_mean',
+                  'by', 'n_channel', 'obs_desc_name', 'cv'}
+_VIEW_METHODS = {'transpose', 'reshape', 'swapaxes', 'view', 'ravel', 'squeeze', 'items', 'values', 'keys',
+                 'get', 'flat'}
+_VIEW_FUNCS = {'np.asarray', 'np.asanyarray', 'np.transpose', 'np.swapaxes', 'np.reshape', 'np.squeeze',
+               'np.ravel', 'np.atleast_1d', 'np.atleast_2d', 'np.atleast_3d', 'np.expand_dims',
+               'np.diagonal', 'np.diag', 'np.broadcast_to', 'enumerate', 'zip', 'iter', 'reversed',
+               '_check_noise'}
+_MUTATORS = {'sort', 'fill', 'resize', 'put', 'itemset', 'setfield', 'partition', 'append', 'extend',
+             'insert', 'remove', 'pop', 'popitem', 'clear', 'update', 'setdefault', 'reverse',
+             'sort_by', 'setflags', '__setitem__', '__setattr__', '__delitem__', 'add', 'discard'}
+_MUT_FUNCS = {'np.copyto', 'np.put', 'np.put_along_axis', 'np.putmask', 'np.place', 'np.fill_diagonal',
+              'setattr', 'delattr'}
+# methods of caller data known not to write
+_PURE_METHODS = _VIEW_METHODS | {'subset_obs', 'mean', 'copy', 'astype', 'sum', 'all', 'any', 'tolist',
+                                 'argsort', 'nonzero', 'min', 'max', 'index', 'count', 'dot', 'std', 'var'}
+# functions that may receive caller data: numpy (minus the in-place ones), builtins, and the anchored
+# functions themselves (analysed on their own)
+_PURE_FUNCS = {'deepcopy', 'len', 'isinstance', 'enumerate', 'zip', 'range', 'list', 'tuple', 'set', 'dict',
+               'iter', 'reversed', 'sorted', 'str', 'int', 'float', 'bool', 'type', 'print', 'repr',
+               'ValueError', 'NotImplementedError', 'hasattr', 'getattr', 'id',
+               'Dataset', 'RDMs', 'concat', 'from_partials', '_extract_triu_',
+               'calc_rdm_euclidean', 'calc_rdm_correlation', 'calc_rdm_mahalanobis', 'calc_rdm_poisson'}
+WRITE_SITES = []
+
+_WRITE_SCOPE = [('rdm/calc.py', 'calc_rdm', None), ('rdm/calc.py', 'calc_rdm_crossnobis', None),
+                ('rdm/calc.py', 'calc_rdm_poisson_cv', None), ('rdm/calc.py', '_calc_rdm_crossnobis_single', None),
+                ('rdm/calc.py', '_gen_default_cv_descriptor', None), ('rdm/calc.py', '_check_noise', None),
+                ('util/build_rdm.py', '_build_rdms', None), ('util/build_rdm.py', '_averaging_occurred', None),
+                ('data/computations.py', 'average_dataset_by', None),
+                ('util/data_utils.py', 'get_unique_inverse', None),
+                ('data/dataset.py', 'subset_obs', 'Dataset'),
+                ('util/descriptor_utils.py', 'subset_descriptor', None),
+                ('util/descriptor_utils.py', 'num_index', None), ('util/descriptor_utils.py', 'bool_index', None)]
+
+
+def _tree_of(path):
+    return ast.parse(open(os.path.join(SRC, path)).read())
+
+
+def _func_in(path, name, cls):
+    tree = _tree_of(path)
+    if cls is None:
+        hits = [n for n in tree.body if isinstance(n, ast.FunctionDef) and n.name == name]
+    else:
+        hits = [m for n in tree.body if isinstance(n, ast.ClassDef) and n.name == cls
+                for m in n.body if isinstance(m, ast.FunctionDef) and m.name == name]
+    return _one(hits, f'definition of {name} in {path}'), tree
+
+
+def _is_alias(e, alias):
+    if isinstance(e, ast.Name):
+        return e.id in alias
+    if isinstance(e, (ast.Attribute, ast.Subscript, ast.Starred)):
+        return _is_alias(e.value, alias)
+    if isinstance(e, ast.Call):
+        if isinstance(e.func, ast.Attribute) and e.func.attr in _VIEW_METHODS and _is_alias(e.func.value, alias):
+            return True
+        if ast.unparse(e.func) in _VIEW_FUNCS and any(_is_alias(a, alias) for a in e.args):
+            return True
+        return False
+    if isinstance(e, (ast.Tuple, ast.List)):
+        return any(_is_alias(x, alias) for x in e.elts)
+    if isinstance(e, ast.IfExp):
+        return _is_alias(e.body, alias) or _is_alias(e.orelse, alias)
+    if isinstance(e, ast.BoolOp):
+        return any(_is_alias(v, alias) for v in e.values)
+    if isinstance(e, ast.NamedExpr):
+        return _is_alias(e.value, alias)
+    return False
+
+
+def _tnames(t):
+    if isinstance(t, ast.Name):
+        return [t.id]
+    if isinstance(t, (ast.Tuple, ast.List)):
+        return [n for e in t.elts for n in _tnames(e)]
+    if isinstance(t, ast.Starred):
+        return _tnames(t.value)
+    return []
+
+
+def _root(e):
+    while isinstance(e, (ast.Attribute, ast.Subscript, ast.Starred)):
+        e = e.value
+    return e.id if isinstance(e, ast.Name) else None
+
+
+def _grow(stmt, alias):
+    """flow-insensitive closure of the alias set over one (possibly compound) statement"""
+    for _ in range(8):
+        before = len(alias)
+        for n in ast.walk(stmt):
+            if isinstance(n, ast.Assign) and _is_alias(n.value, alias):
+                for t in n.targets:
+                    alias.update(_tnames(t))
+            if isinstance(n, (ast.AnnAssign, ast.NamedExpr)) and n.value is not None and _is_alias(n.value, alias):
+                alias.update(_tnames(n.target))
+            if isinstance(n, (ast.For, ast.comprehension)) and _is_alias(n.iter, alias):
+                alias.update(_tnames(n.target))
+            if isinstance(n, ast.With):
+                for it in n.items:
+                    if it.optional_vars is not None and _is_alias(it.context_expr, alias):
+                        alias.update(_tnames(it.optional_vars))
+        if len(alias) == before:
+            return
+
+
+def _sites(stmt, alias, local_names, fname, module_funcs=()):
+    out = []
+
+    def hit(n, why):
+        out.append((n.lineno, why + ': ' + ast.unparse(n).split('\n')[0][:110]))
+
+    def foreign(e):
+        r = _root(e)
+        return r is not None and r not in local_names and not isinstance(e, ast.Name)
+
+    for n in ast.walk(stmt):
+        if isinstance(n, (ast.Global, ast.Nonlocal)):
+            hit(n, 'global state')
+        if isinstance(n, ast.AugAssign):
+            if _is_alias(n.target, alias):
+                hit(n, 'in-place update of caller data')
+            elif foreign(n.target) or (isinstance(n.target, ast.Name) and n.target.id not in local_names):
+                hit(n, 'store into a non-local name')
+        if isinstance(n, (ast.Assign, ast.AnnAssign)):
+            targets = n.targets if isinstance(n, ast.Assign) else [n.target]
+            for t in targets:
+                for tt in (t.elts if isinstance(t, (ast.Tuple, ast.List)) else [t]):
+                    if isinstance(tt, (ast.Subscript, ast.Attribute)):
+                        if _is_alias(tt.value, alias):
+                            if not _is_self_restore(n, fname):
+                                hit(n, 'store into caller data')
+                        elif foreign(tt):
+                            hit(n, 'store into a non-local name')
+        if isinstance(n, ast.Delete):
+            for t in n.targets:
+                if isinstance(t, (ast.Subscript, ast.Attribute)) and (_is_alias(t.value, alias) or foreign(t)):
+                    hit(n, 'del on caller data / non-local name')
+        if isinstance(n, ast.Call):
+            fn_txt = ast.unparse(n.func)
+            args = list(n.args) + [k.value for k in n.keywords]
+            if isinstance(n.func, ast.Attribute):
+                recv = n.func.value
+                if _is_alias(recv, alias):
+                    if n.func.attr in _MUTATORS:
+                        hit(n, 'mutating method on caller data')
+                    elif n.func.attr not in _PURE_METHODS:
+                        hit(n, 'unknown method on caller data')
+                elif n.func.attr in _MUTATORS and foreign(n.func) and _root(n.func) != 'np':
+                    hit(n, 'mutating method on a non-local name')
+            if fn_txt in _MUT_FUNCS and args and (_is_alias(args[0], alias) or foreign(args[0])
+                                                  or isinstance(args[0], ast.Name) and args[0].id not in local_names):
+                hit(n, 'in-place function on caller data / non-local name')
+            for k in n.keywords:
+                if k.arg == 'out' and (_is_alias(k.value, alias) or foreign(k.value)):
+                    hit(n, 'out= caller data')
+            if isinstance(n.func, ast.Name):
+                known = _PURE_FUNCS | {f for _, f, _ in _WRITE_SCOPE} | _VIEW_FUNCS
+                if fn_txt not in known and any(_is_alias(a, alias) for a in args):
+                    hit(n, 'caller data handed to a function the analysis does not know')
+                elif fn_txt not in known and fn_txt in module_funcs:
+                    hit(n, 'helper of the same module outside the analysed scope (may keep state)')
+            if isinstance(n.func, ast.Attribute) and any(_is_alias(a, alias) for a in args) \
+                    and not _is_alias(n.func.value, alias):
+                root = _root(n.func)
+                if fn_txt in _MUT_FUNCS:
+                    pass
+                elif root == 'np' or fn_txt in ('rdms.append', 'measurements.append', 'variances.append'):
+                    pass
+                elif root in local_names and n.func.attr in ('append', 'extend', 'subset_obs'):
+                    pass
+                else:
+                    hit(n, 'caller data handed to a method the analysis does not know')
+    return out
+
+
+def _is_self_restore(node, fname):
+    """`noise[key] = _check_noise(noise[key], n_channel)` / `noise[idx] = _check_noise(noise_i, n_channel)`
+    inside `for idx, noise_i in enumerate(noise)`: puts back the object it took out (see
+    check_noise_identity)"""
+    if fname != '_check_noise' or not isinstance(node, ast.Assign):
+        return False
+    return ast.unparse(node) in ('noise[key] = _check_noise(noise[key], n_channel)',
+                                 'noise[idx] = _check_noise(noise_i, n_channel)')
+
+
+def _writes_in(fn, tree, where):
+    params = [a.arg for a in fn.args.posonlyargs + fn.args.args + fn.args.kwonlyargs]
+    if fn.args.vararg:
+        params.append(fn.args.vararg.arg)
+    if fn.args.kwarg:
+        params.append(fn.args.kwarg.arg)
+    alias = set(params) - _SCALAR_PARAMS
+    local_names = set(params)
+    for n in ast.walk(fn):
+        if isinstance(n, ast.Name) and isinstance(n.ctx, ast.Store):
+            local_names.add(n.id)
+        if isinstance(n, (ast.Import, ast.ImportFrom)):
+            local_names.update((a.asname or a.name).split('.')[0] for a in n.names)
+        if isinstance(n, (ast.FunctionDef, ast.Lambda)) and n is not fn:
+            local_names.update(a.arg for a in n.args.args)
+    sites = []
+    if fn.decorator_list:
+        sites.append((fn.lineno, 'decorator: ' + ', '.join(ast.unparse(d) for d in fn.decorator_list)))
+    for d in fn.args.defaults + [d for d in fn.args.kw_defaults if d is not None]:
+        if isinstance(d, (ast.List, ast.Dict, ast.Set, ast.Call, ast.ListComp, ast.DictComp)):
+            sites.append((fn.lineno, 'mutable default argument: ' + ast.unparse(d)))
+    for st in tree.body:
+        if isinstance(st, (ast.Assign, ast.AugAssign, ast.AnnAssign)) and fn in [
+                n for n in tree.body if isinstance(n, ast.FunctionDef)]:
+            targets = st.targets if isinstance(st, ast.Assign) else [st.target]
+            if any(fn.name in _tnames(t) or _root(t) == fn.name for t in targets):
+                sites.append((st.lineno, 'module-level rebinding: ' + ast.unparse(st)[:100]))
+    module_funcs = {n.name for n in tree.body if isinstance(n, ast.FunctionDef)}
+    for st in fn.body:
+        _grow(st, alias)
+        sites.extend(_sites(st, alias, local_names, fn.name, module_funcs))
+        if isinstance(st, ast.Assign) and len(st.targets) == 1 and isinstance(st.targets[0], ast.Name) \
+                and not _is_alias(st.value, alias):
+            alias.discard(st.targets[0].id)            # unconditional rebinding to a fresh object
+    # the two self-restores must be where the whitelist expects them
+    return [f'{where}:{ln}: {txt}' for ln, txt in sorted(set(sites))]
+
+
+def input_writes():
+    del WRITE_SITES[:]
+    for path, name, cls in _WRITE_SCOPE:
+        fn, tree = _func_in(path, name, cls)
+        WRITE_SITES.extend(_writes_in(fn, tree, f'{path}:{(cls + ".") if cls else ""}{name}'))
+    return str(len(WRITE_SITES))
+
+
+def check_noise_identity():
+    fn, _ = _func_in(CALC, '_check_noise', None)
+    rets = [n for n in ast.walk(fn) if isinstance(n, ast.Return)]
+    if not rets or any(r.value is None or ast.unparse(r.value) != 'noise' for r in rets):
+        raise Underivable('_check_noise does not return its argument `noise` in every branch')
+    for n in ast.walk(fn):
+        if isinstance(n, ast.Name) and n.id == 'noise' and isinstance(n.ctx, ast.Store):
+            raise Underivable('_check_noise rebinds `noise`')
+        if isinstance(n, ast.AugAssign) and _root(n.target) == 'noise':
+            raise Underivable(f'_check_noise updates its argument in place: `{ast.unparse(n)}`')
+    if not isinstance(fn.body[-1], ast.Return):
+        raise Underivable('_check_noise does not end in a return')
+    return '1'
+
+
+def _work_is_copy(fn_name, work):
+    fn, _ = _func_in(CALC, fn_name, None)
+    copies = [i for i, st in enumerate(fn.body) if isinstance(st, ast.Assign) and len(st.targets) == 1
+              and ast.unparse(st.targets[0]) == work]
+    stores = [n for n in ast.walk(fn) if isinstance(n, ast.Name) and n.id == work and isinstance(n.ctx, ast.Store)]
+    if len(copies) != 1 or len(stores) != 1:
+        raise Underivable(f'{fn_name}: expected exactly one unconditional assignment to {work}')
+    k = copies[0]
+    if ast.unparse(fn.body[k].value) != 'deepcopy(dataset)':
+        raise Underivable(f'{fn_name}: {work} is `{ast.unparse(fn.body[k].value)}`, not deepcopy(dataset)')
+    imp = [n for n in _tree_of(CALC).body if isinstance(n, ast.ImportFrom) and n.module == 'copy'
+           and any(a.name == 'deepcopy' and a.asname is None for a in n.names)]
+    if not imp or any(isinstance(n, (ast.FunctionDef, ast.Assign)) and 'deepcopy' in
+                      ([n.name] if isinstance(n, ast.FunctionDef) else [t for x in n.targets for t in _tnames(x)])
+                      for n in _tree_of(CALC).body):
+        raise Underivable('deepcopy is not copy.deepcopy')
+    # before the copy the dataset may only be read for its channel count
+    for st in fn.body[:k]:
+        for n in ast.walk(st):
+            if isinstance(n, ast.Name) and n.id == 'dataset':
+                ok = any(isinstance(p, ast.Attribute) and p.value is n and p.attr == 'n_channel'
+                         for p in ast.walk(st))
+                if not ok:
+                    raise Underivable(f'{fn_name}: dataset is used before the copy: `{ast.unparse(st)[:80]}`')
+    # after the copy the caller's object is not mentioned any more (unless the copy took its name)
+    if work != 'dataset':
+        for st in fn.body[k + 1:]:
+            if any(isinstance(n, ast.Name) and n.id == 'dataset' for n in ast.walk(st)):
+                raise Underivable(f'{fn_name}: the caller\'s dataset is used after the copy: '
+                                  f'`{ast.unparse(st)[:80]}`')
+    # the in-place operations hit the copy
+    sorts = [n for st in fn.body[k + 1:] for n in ast.walk(st) if isinstance(n, ast.Call)
+             and isinstance(n.func, ast.Attribute) and n.func.attr == 'sort_by']
+    if len(sorts) != 1 or ast.unparse(sorts[0].func.value) != work:
+        raise Underivable(f'{fn_name}: expected exactly one `{work}.sort_by(…)` after the copy')
+    cvs = [n for st in fn.body for n in ast.walk(st) if isinstance(n, ast.Assign)
+           and any(isinstance(t, ast.Subscript) and "'cv_desc'" in ast.unparse(t.slice) for t in n.targets)]
+    if len(cvs) != 1 or ast.unparse(cvs[0].targets[0]) != f"{work}.obs_descriptors['cv_desc']":
+        raise Underivable(f'{fn_name}: the default fold descriptor is not stored into {work}.obs_descriptors')
+    return '1'
+
 # ------------------------------------------------------------------ write the derived file
 
 _SPECS = []       # (python name, lean name, params (ordered dict), ret)
@@ -414,6 +727,15 @@ def _derive():
          lambda: test_is_fold('calc_rdm_poisson_cv', 'dataset'))
     emit('poisson_train_excludes_fold', 'poissonTrainExcludesFold', N0, 'Nat',
          lambda: train_excludes_fold('calc_rdm_poisson_cv', 'dataset'))
+    emit('input_writes', 'inputWrites', N0, 'Nat', input_writes)
+    emit('check_noise_identity', 'checkNoiseIdentity', N0, 'Nat', check_noise_identity)
+    emit('cross_work_is_copy', 'crossWorkIsCopy', N0, 'Nat',
+         lambda: _work_is_copy('calc_rdm_crossnobis', 'datasetCopy'))
+    emit('poisson_work_is_copy', 'poissonWorkIsCopy', N0, 'Nat',
+         lambda: _work_is_copy('calc_rdm_poisson_cv', 'dataset'))
+    out.append('# places that can leave state behind after a call (input_writes counts these):')
+    out.extend('#   ' + w for w in WRITE_SITES)
+    out.append('')
 
     text = '\n'.join(out)
     if not (os.path.exists(DERIVED) and open(DERIVED).read() == text):
